@@ -124,8 +124,15 @@ def decExpFrom (num den : Nat) : Nat → Int → Int
     else if geTenPow num den (k + 1) then decExpFrom num den fuel (k + 1)
     else k
 
+/-- the same exponent by plain downward search (never needed for binary64 inputs; it makes the
+result of `decExp` correct by construction whatever the estimate) -/
+def decExpDown (num den : Nat) : Nat → Int → Int
+  | 0, k => k
+  | fuel + 1, k => if geTenPow num den k then k else decExpDown num den fuel (k - 1)
+
 def decExp (num den : Nat) : Int :=
-  decExpFrom num den 8 ((((Nat.log2 num : Int) - (Nat.log2 den : Int)) * 30103) / 100000)
+  let k := decExpFrom num den 8 ((((Nat.log2 num : Int) - (Nat.log2 den : Int)) * 30103) / 100000)
+  if geTenPow num den k && !geTenPow num den (k + 1) then k else decExpDown num den 800 400
 
 /-- `num/den · 10^(18-k)` rounded half-even -/
 def digitsAt (num den : Nat) (k : Int) : Nat :=
@@ -258,30 +265,37 @@ inductive Lit
   | nan
   deriving Repr, DecidableEq
 
-def parseLit (cs : List Char) : Option Lit :=
-  let (neg, body) := match cs with
-    | '-' :: r => (true, r)
-    | '+' :: r => (false, r)
-    | r => (false, r)
-  let low := body.map lower
-  if low = ['i', 'n', 'f'] || low = ['i', 'n', 'f', 'i', 'n', 'i', 't', 'y'] then some (.inf neg)
-  else if low = ['n', 'a', 'n'] then some .nan
+/-- an optional sign -/
+def stripSign : List Char → Bool × List Char
+  | '-' :: r => (true, r)
+  | '+' :: r => (false, r)
+  | r => (false, r)
+
+/-- the exponent part after `e`: optional sign, at least one digit -/
+def parseExpo (ex : List Char) : Option Int :=
+  let s := stripSign ex
+  if s.2.isEmpty || !s.2.all isDigit then none
+  else some (if s.1 then -((digitsToNat s.2 : Nat) : Int) else ((digitsToNat s.2 : Nat) : Int))
+
+/-- `digits[.digits][e[±]digits]` with at least one mantissa digit -/
+def parseNumber (neg : Bool) (body : List Char) : Option Lit :=
+  let me := splitFirst (fun c => c = 'e' || c = 'E') body
+  let pf := splitFirst (fun c => c = '.') me.1
+  let ip := pf.1
+  let fp := pf.2.getD []
+  if !(ip.all isDigit && fp.all isDigit) || (ip.isEmpty && fp.isEmpty) then none
   else
-    let (mant, expo) := splitFirst (fun c => c = 'e' || c = 'E') body
-    let (ip, fp) := splitFirst (fun c => c = '.') mant
-    let fp := fp.getD []
-    if !(ip.all isDigit && fp.all isDigit) || (ip.isEmpty && fp.isEmpty) then none else
     let D := digitsToNat (ip ++ fp)
-    match expo with
+    match me.2 with
     | none => some (.num neg D (-(fp.length : Int)))
-    | some ex =>
-      let (eneg, ed) := match ex with
-        | '-' :: r => (true, r)
-        | '+' :: r => (false, r)
-        | r => (false, r)
-      if ed.isEmpty || !ed.all isDigit then none else
-      let ev : Int := digitsToNat ed
-      some (.num neg D ((if eneg then -ev else ev) - (fp.length : Int)))
+    | some ex => (parseExpo ex).map (fun ev => .num neg D (ev - (fp.length : Int)))
+
+def parseLit (cs : List Char) : Option Lit :=
+  let s := stripSign cs
+  let low := s.2.map lower
+  if low = ['i', 'n', 'f'] || low = ['i', 'n', 'f', 'i', 'n', 'i', 't', 'y'] then some (.inf s.1)
+  else if low = ['n', 'a', 'n'] then some .nan
+  else parseNumber s.1 s.2
 
 /-- bit pattern of the binary64 nearest to a literal -/
 def litBits : Lit → Nat
